@@ -2,6 +2,7 @@ package mon
 
 import (
 	"fmt"
+	"path/filepath"
 	"reflect"
 	"strings"
 
@@ -37,6 +38,16 @@ func runC15(c *core.Ctx) {
 	}
 	g := gen.New(c.R)
 	t := caseTree(c, g, 6)
+	if c.R.Intn(6) == 0 {
+		// a third-party style leaf with both StackTrace() and SafeDetails() at the end of the main chain
+		n := t
+		for len(n.Kids) == 1 && !model.IsMulti(n) && len(n.Kids[0].Kids) > 0 {
+			n = n.Kids[0]
+		}
+		if len(n.Kids) == 1 && !model.IsMulti(n) {
+			n.Kids[0] = g.Make("stacksafeleaf", nil, nil)
+		}
+	}
 	coverTree(c, t)
 	e0, _, ok := safeBuild(c, t)
 	if !ok {
@@ -73,9 +84,26 @@ func runC15(c *core.Ctx) {
 				c.Violate("layers/"+st.name, "number of layers differs from the model", fmt.Sprintf("%s\n%d vs %d", t, len(layers), len(vl)))
 				return
 			}
+			// the innermost recorded source: the last layer of the single-cause
+			// chain that carries a reportable stack; its innermost frame
 			pfx := ""
-			if f, l, _, ok := errors.GetOneLineSource(e); ok {
+			var inner *errors.ReportableStackTrace
+			for x := e; x != nil; x = errors.UnwrapOnce(x) {
+				if s := errors.GetReportableStackTrace(x); s != nil && len(s.Frames) > 0 {
+					inner = s
+				}
+			}
+			f, l, _, ok := errors.GetOneLineSource(e)
+			if ok {
 				pfx = fmt.Sprintf("%s:%d: ", f, l)
+			}
+			if (inner != nil) != ok {
+				c.Violate("one-line-source/presence/"+st.name, "GetOneLineSource and the per-layer stacks disagree on whether a source location is recorded", fmt.Sprintf("%s\nGetOneLineSource ok=%v, innermost stack layer present=%v", t, ok, inner != nil))
+			} else if inner != nil {
+				fr := inner.Frames[len(inner.Frames)-1]
+				if l != fr.Lineno || filepath.Base(f) != filepath.Base(fr.Filename) && filepath.Base(f) != filepath.Base(fr.AbsPath) {
+					c.Violate("one-line-source/innermost/"+st.name, "the source location is not the innermost frame of the innermost stack-bearing layer", fmt.Sprintf("%s\ngot %s:%d want %s:%d", t, f, l, fr.Filename, fr.Lineno))
+				}
 			}
 			verbose := redact.Sprintf("%+v", e).Redact().StripMarkers()
 			want := pfx + verbose + "\n-- report composition:\n"
